@@ -53,6 +53,15 @@ var urlPool = []string{
 	"/x?a=1&a=2&&=&b",
 	"/deep/../up/./q?%zz=1&state=fake&code=fake",
 	"/q?u=a b\"c<d>",
+	// (indexes 10..17) paths next to the callback and logout paths of filter f1
+	"/f1/session",
+	"/f1/callback/session?x=1",
+	"/f1/callback/",
+	"/f1/Callback",
+	"/f1/callbackx?code=1&state=2",
+	"/f1/logout/now",
+	"/f1/userinfo",
+	"/f1",
 }
 
 type gate struct {
